@@ -47,6 +47,8 @@ def generate(ctx):
             d["reduction"] = "sum"
         if "Kernel" in name and rng.random() < 0.4:
             d["kernel"] = "osc"           # a user kernel whose sign changes with the time difference
+        # updates accumulate over several trainer calls (inspected in between) before the connection applies them
+        d["update_every"] = rng.choice([1, 1, 2, 3])
         yield d
     for i in range(400 if th else 16):
         yield {"part": "cross", "pair": i % 2, "tensor_kwargs": rng.choice([[], ["post_learning_rate", "post_time_constant"], ["pre_learning_rate"]]),
@@ -157,6 +159,7 @@ def _formula(ctx, desc):
             sgn = 1.0 if desc["reward"] == "scalar+" else -1.0
             rewards = [sgn * float(torch.rand(1, generator=g)) for _ in range(desc["T"])]
     mask = (1 - np.eye(h.conn.weight.shape[0])) if desc["conn"] == "lateral" else None
+    pend, tainted = None, False
     for t in range(desc["T"]):
         rdesc = {**desc, "T": t + 1}
         if desc["reassign_delays"] and t and t % 3 == 0 and name not in tr.LEARNS_DELAY:
@@ -169,9 +172,23 @@ def _formula(ctx, desc):
             ctx.count("trainer_clears")
         delays = None if h.conn.delayedby is None else h.conn.delay.detach().clone()
         reward = rewards[t] if rewards else None
-        pos, neg, dparam = h.step_apply(pre[t], post[t], reward, desc["scale"])
+        ue = desc.get("update_every", 1) if (name not in tr.LEARNS_DELAY and not desc.get("clear_at")) else 1
+        applying = (t + 1) % ue == 0
+        pos, neg, dparam = h.step_apply(pre[t], post[t], reward, desc["scale"], apply=applying)
         orc.near_tie = False
         epos, eneg = orc.step(pre[t], post[t], delays, reward, desc["scale"])
+        if ue > 1:
+            # what is pending is the sum of the parts contributed since the last application (accumulators add parts up)
+            ctx.count("steps_with_accumulated_pending_updates")
+            pend_p = epos if pend is None else pend[0] + epos
+            pend_n = eneg if pend is None else pend[1] + eneg
+            pend = None if applying else (pend_p, pend_n)
+            if not applying:
+                dparam = None
+            epos, eneg = pend_p, pend_n
+            tainted = tainted or orc.near_tie
+            if applying:
+                orc.near_tie, tainted = tainted, False
         if orc.near_tie:
             # mathematically simultaneous pair at a step time that is not exactly representable: not decidable (guard band)
             ctx.guard_skips += 1
@@ -198,7 +215,7 @@ def _formula(ctx, desc):
         enet = epos - eneg
         if mask is not None:
             enet = enet * mask
-        if not np.allclose(_np(dparam), enet, rtol=1e-8, atol=1e-10):
+        if dparam is not None and not np.allclose(_np(dparam), enet, rtol=1e-8, atol=1e-10):
             return ctx.violation(f"{name}.applied_change_ne_formula.{desc['conn']}", f"step {t}: applied {h.param} change differs", rdesc)
 
 
